@@ -28,7 +28,7 @@ def _add_models():
           + sorted(set('features/%s_models/%s/interface' % (m['family'], m['kind']) for m in ms))
     skip = [i for i, m in enumerate(ms) if m['cls'] == 'MassConserving']
     OBLIGATIONS.append(dict(id='C01.pure.models', harness=path, entry='h_pure_model', mode='fpa', cases=[(i,) for i in range(len(ms)) if i not in skip], cases_thorough=[(i,) for i in range(len(ms))], expect=['end'], tus=tus,
-        native=False, allow_throw=True, slicing=False, time_cap=270, bounds='every model class under include/world_builder/features/*_models (%d classes, list regenerated from the tree); one query with arbitrary arguments per class' % len(ms),
+        native=False, allow_throw=True, slicing=False, time_cap=270, eager_writes=True, bounds='every model class under include/world_builder/features/*_models (%d classes, list regenerated from the tree); one query with arbitrary arguments per class' % len(ms),
         stubs=['Parameters API stub', 'World::properties (recursive), ridge geometry, Surface::local_value and the Mersenne Twister step return arbitrary values', 'arithmetic abstracted (fpa): only the write-set is claimed'],
         assumes=['random models may write the world\'s own random engine (C15)'], outside=['slab/fault property functions']))
 _add_models()
